@@ -500,7 +500,7 @@ class ThreadPoolServer(Server):
                 # the queue with None fds
                 fd = self._active_connection_queue.get(True)
                 # fd may be None (case where we want to exit the blocking get to close the service)
-                if fd:
+                if fd is not None:  # (0 is a descriptor like any other)
                     # serve the requests of this connection
                     self._serve_requests(fd)
             except Queue.Empty:
